@@ -34,16 +34,16 @@ CHECKS = {
  "C07": ("Coq proofs cumsum_correct, accumulate_correct, diff_correct, sort_correct, unique_correct + correspondence incl. scan-mutate-scan sequences",
          "Each scan/reordering equals the per-row numpy definition for every placement of empty rows; cumsum/accumulate over abstract groups (integer wrap-around inside the theorem); "
          "float accumulate through the padded matrix compared bit-exactly with numpy per row.", "4.7, 10.3", ""),
- "C08": ("Coq proofs concat0/concat1/like/where/where_scalar/subset/ragged_slice/nonzero/padded_correct + correspondence",
-         "Structural functions are polymorphic list functions; theorems state row-structure preservation. Correspondence only: ragged_slice of 1-D/2-D inputs, NPSArray[starts:ends], empty_like, dtype pairs of where.", "4.8, 10.3", ""),
+ "C08": ("Coq proofs concat0/concat1/like/where/where_scalar/subset/ragged_slice (ragged, 1-D and 2-D inputs)/nonzero/padded_correct + ragged_slice window arithmetic re-translated and tied + correspondence",
+         "Structural functions are polymorphic list functions; theorems state row-structure preservation. ragged_slice is proved for ragged, 1-D and 2-D inputs; its per-row arithmetic (defaults included) is re-translated from raggedslice.py on every run. Correspondence only: NPSArray[starts:ends], empty_like, dtype pairs of where.", "4.8, 10.3", ""),
  "C09": ("Coq proofs colsum_correct, col_counts_correct, get_column_values_correct + correspondence incl. integers beyond 2^53 and float32 precision cases",
          "Column sums count every row that reaches the column once; col_counts is the suffix count of lengths; get_column_values lists the j-th elements in row order. Correspondence only: the one division of mean, dtype branches.", "4.9, 10.3", ""),
  "C10": ("Coq proof of run_sim / C10_partial_concrete (heap-with-lazy-views machine refines value semantics on safe histories, concrete selector grammar, sound boolean guard) + C10_refuted witness + correspondence on history pairs",
          "The full statement is false of the faithful model (C10_refuted, reproduced on the real code: known finding K1); C10_partial_concrete proves it for histories in which no "
          "write hits a buffer another array still names. History pairs with/without an inserted read (20 read kinds that return their own results) are run on the implementation and on the model.", "4.10, 10.3", ""),
- "C11": ("Coq proof table_is_dictionary (refinement of the bucket table to an association list over every history), tbl_eq_correct (== decides dictionary equality) + hash kernel tie + correspondence on histories (oracle and dict-model families)",
+ "C11": ("Coq proof table_is_dictionary (refinement of the bucket table to an association list over every history), tbl_eq_correct (== decides dictionary equality), tbl_add_correct (+ is the key-wise sum or refused), tbl_like_correct + hash kernel tie + correspondence on histories (oracle and dict-model families)",
          "Invariant established by the constructor for every duplicate-free key set and modulus, preserved by assignment; lookups equal the dictionary's; absent keys refused. "
-         "Equality of two tables (any moduli, any bucket order) equals equality of their dictionaries. Correspondence only: key dtypes other than int64, float values, like-functions, +, items/to_dict, HashSet.", "4.11, 10.3", ""),
+         "Equality of two tables (any moduli, any bucket order) equals equality of their dictionaries. Sums of two tables on the same key array equal the key-wise sum of the dictionaries; zeros_like/ones_like keep the key set. Correspondence only: key dtypes other than int64, float values, +=, HashSet.", "4.11, 10.3", ""),
  "C12": ("Coq proof count_correct / count_history / split-and-order invariance, fast_indices_correct + correspondence on batch histories",
          "After any sequence of batches every key reports initial + occurrences in the concatenation; non-keys contribute nothing; the fast index builder equals the general one.", "4.12, 10.3", ""),
  "C13": ("Coq proof unpack_pack, get_correct, getlist_correct, sliding_window_correct over Z with explicit mod 2^64 + nine bitarray.py kernels re-translated from the source and tied + correspondence",
@@ -56,8 +56,8 @@ CHECKS = {
          "Merged-boundary binary ufunc decodes to map2 of the dense arrays and has no equal neighbours; reductions on run values equal reductions of the decoded array.", "4.16, 10.3", ""),
  "C17": ("Coq proofs from_ragged_decode, from_matrix_decode, rl2_select/map/concat/sum/max_argmax/col/ravel/elem, rl2_col_sum(_matrix)_correct, rl2_col_counts_correct, from_intervals_decode, rl2_col_range_pos1_partial (column ranges a:b with step 1 inside the rows) + step-subset kernel tie + correspondence (model and dense numpy), the only decision for the other column ranges and any(axis=0)",
          "Row-wise lock-step representation; column sums (sorted change events + running sums) and column counts decode to the dense column sums / counts for every column. from_intervals decodes to the indicator matrix. Column ranges / any(axis=0) are modelled (Model/RLE2d.v) and decided by correspondence with the model and with numpy on the dense data (stated, not proved).", "4.17, 10.3", ""),
- "C18": ("Coq proof obj_select_entries / obj_item_entry / obj_concat_entries / obj_eqb_iff / obj_astype_* / varlen_rows + correspondence on run-time generated dataclasses",
-         "Applying one selector to every field equals selecting entries of the table; concatenation concatenates the tables; astype keeps every value under its own field name; VarLenArray concatenation right-aligns. Correspondence only: iteration.", "4.18, 10.3", ""),
+ "C18": ("Coq proof obj_select_entries / obj_item_entry / obj_concat_entries / obj_eqb_iff / obj_astype_* / obj_iter_entries / varlen_rows + correspondence on run-time generated dataclasses",
+         "Applying one selector to every field equals selecting entries of the table; concatenation concatenates the tables; astype keeps every value under its own field name; iteration yields the entries in order; VarLenArray concatenation right-aligns.", "4.18, 10.3", ""),
  "C19": ("Coq proof index_rows_width_independent, shape_codes_width_independent, geometry_additions_width_independent + all C01-C09 case sets run under both index widths (separate processes and in-process switch)",
          "Packed 64-bit gather of (start,length) pairs equals gathering the pairs when entries fit 31 bits; the int32 geometry arithmetic equals the unbounded one for arrays that fit; "
          "the implementation is compared with itself across configurations.", "4.19, 10.3", ""),
